@@ -346,6 +346,8 @@ fn inline_op(item: &mut Item, p: &[&str]) -> String {
             InlineEntry::Occupied(_) => "occ".into(),
             InlineEntry::Vacant(_) => "vac".into(),
         },
+        // only `InlineTable` has it; a panic ("non-value type in inline table") is an outcome of the call
+        "goi" => guarded(|| vtok(t.get_or_insert(p[1], num(p[2])))),
         "idx" => guarded(|| vtok(&t[p[1]])),
         "retain" => {
             t.retain(|_, v| v.as_integer().map_or(false, |n| n % 2 == 0));
